@@ -40,6 +40,8 @@ def only_map_fixed_test(fs):
     returns the list of OTHER conditions on that path (must be empty: MAP_FIXED is refused for every request, not some)"""
     extra = []
     for r in fs:
+        if r[0] == 'variant':
+            continue        # the name of a variant whose index is a `discr` fact of the same list
         if r[0] == 'cmp' and any(match(BIN("BitAnd", ANY, K(MAP_FIXED)), x, {}) for x in (r[2], r[3])):
             continue
         if r[0] == 'discr' and any(s[0] == 'field' and s[2] == 'flags' for s in subterms(deep_strip(r[1]))):
